@@ -154,6 +154,12 @@ pub fn gen_tree(rng: &mut Rng, sink: &mut Sink, vocab: &Vocab) -> (GTree, bool) 
         representable = false;
         sink.stat("gen.any-chars");
     }
+    if rng.chance(1, 6) {
+        // adjacent text nodes (consolidation off) with XML characters only
+        cfg.adjacent_text = true;
+        representable = false;
+        sink.stat("gen.adjacent-text");
+    }
     if rng.chance(1, 10) {
         // names of the namespace whose URI needs escaping
         cfg.elem_names.push(NAME_WE);
